@@ -51,8 +51,20 @@ def broadcast(a: Shape, b: Shape) -> Shape:
 
 
 def matmul_shape(a: Shape, b: Shape) -> Shape:
-    if len(a) < 2 or len(b) < 2:
-        raise Uninterpretable("matmul of rank<2 operands %s @ %s" % (a, b))
+    if len(a) == 0 or len(b) == 0:
+        raise ShapeError("matmul of a 0-dimensional operand %s @ %s" % (a, b))
+    if len(a) == 1 and len(b) == 1:
+        if a[0] != b[0]:
+            raise ShapeError("dot product of different lengths %s @ %s" % (a, b))
+        return ()
+    if len(b) == 1:            # matrix @ vector: the vector is a column, the added axis is removed
+        if a[-1] != b[0]:
+            raise ShapeError("matmul contraction mismatch %s @ %s" % (a, b))
+        return tuple(a[:-1])
+    if len(a) == 1:            # vector @ matrix: the vector is a row
+        if a[0] != b[-2]:
+            raise ShapeError("matmul contraction mismatch %s @ %s" % (a, b))
+        return tuple(b[:-2]) + (b[-1],)
     if a[-1] != b[-2]:
         raise ShapeError("matmul contraction mismatch %s @ %s" % (a, b))
     return broadcast(a[:-2], b[:-2]) + (a[-2], b[-1])
